@@ -197,6 +197,30 @@ func scenC03(c *ctx) {
 			c.rec.Emit(c.hotpValidateCase(fmt.Sprintf("edit%d", i), key, c.someSpelling(key), ctr, P{Digits: d, Alg: a, Skew: s}, dist, ed))
 		}
 	}
+	// codes with leading zeros: a string of the same length and numeric value but other bytes is not the code
+	for i := 0; i < c.n(25, 300); i++ {
+		key := c.someKey()
+		d := okDigits[1+c.rng.Intn(len(okDigits)-1)]
+		a := uint8(c.rng.Intn(3))
+		s := uint64(c.rng.Intn(4))
+		base := c.someCounter()>>2 + 50
+		for try := uint64(0); try < 80; try++ {
+			code := refHOTP(key, base+try, int(d), int(a))
+			if code == "" || code[0] != '0' {
+				continue
+			}
+			dist := 0
+			if s > 0 {
+				dist = c.rng.Intn(2*int(s)+1) - int(s)
+			}
+			ctr := base + try - uint64(int64(dist))
+			for _, lead := range []string{"+", " ", "-", "\t"} {
+				c.rec.Emit(doValidateHOTP(fmt.Sprintf("C03/lead/%d/%q", i, lead), b32(key), lead+code[1:], ctr, P{Digits: d, Alg: a, Skew: s}))
+			}
+			c.rec.Emit(doValidateHOTP(fmt.Sprintf("C03/lead/%d/exact", i), b32(key), code, ctr, P{Digits: d, Alg: a, Skew: s}))
+			break
+		}
+	}
 	// refused windows: even the exact code of the counter itself
 	for _, s := range skewsRefused {
 		for i := 0; i < 3; i++ {
@@ -326,6 +350,31 @@ func scenC04(c *ctx) {
 				dist = c.rng.Intn(2*int(s)+1) - int(s)
 			}
 			c.rec.Emit(c.totpValidateCase(fmt.Sprintf("edit%d", i), key, c.someSpelling(key), sec, i, P{Digits: uint8([]int{6, 8, 10}[i%3]), Alg: uint8(i % 3), Skew: s, Period: per}, dist, ed))
+		}
+	}
+	// codes with leading zeros: same numeric value, other bytes
+	for i := 0; i < c.n(25, 300); i++ {
+		key := c.someKey()
+		d := okDigits[1+c.rng.Intn(len(okDigits)-1)]
+		a := uint8(c.rng.Intn(3))
+		s := uint64(c.rng.Intn(4))
+		base := uint64(c.rng.Int63n(1<<30)) + 50
+		for try := uint64(0); try < 80; try++ {
+			code := refHOTP(key, base+try, int(d), int(a))
+			if code == "" || code[0] != '0' {
+				continue
+			}
+			dist := 0
+			if s > 0 {
+				dist = c.rng.Intn(2*int(s)+1) - int(s)
+			}
+			step := base + try - uint64(int64(dist))
+			t := time.Unix(int64(step*30)+int64(c.rng.Intn(30)), 0)
+			for _, lead := range []string{"+", " ", "-", "\t"} {
+				c.rec.Emit(doValidateTOTP(fmt.Sprintf("C04/lead/%d/%q", i, lead), b32(key), lead+code[1:], t, P{Digits: d, Alg: a, Skew: s, Period: 30}))
+			}
+			c.rec.Emit(doValidateTOTP(fmt.Sprintf("C04/lead/%d/exact", i), b32(key), code, t, P{Digits: d, Alg: a, Skew: s, Period: 30}))
+			break
 		}
 	}
 	// refused skews: every submitted string, including the current step's own code, is refused
